@@ -28,7 +28,23 @@ echo "== demo without patch" >> $log
 run_demo $demopkg || echo "SEED $name: demo FAILS without patch (bad seed)"
 git stash pop -q
 # now the check
-git -C /repo apply $out/patch.diff || { echo "SEED $name: patch does not apply to /repo"; exit 2; }
-cd /verif && ./run.sh $chk $tier > $out/check_$chk.log 2>&1; rc=$?
-git -C /repo checkout -- .
+if [ "$SEED_MODE" = overlay ]; then
+  # build the check with the changed files overlaid on /repo (leaves /repo untouched; the instrumenter reads
+  # the worktree through VERIF_REPO; scratch and output directories are private to this evaluation)
+  lc=$(echo $chk | tr 'A-Z' 'a-z')
+  ov=/tmp/seed_ov_$name.json
+  python3 - "$out/patch.diff" "$wt" > $ov <<'PY'
+import sys, json, re
+files = [l[6:].strip() for l in open(sys.argv[1]) if l.startswith('+++ b/') and l.strip().endswith('.go')]
+print(json.dumps({"Replace": {"/repo/" + f: sys.argv[2] + "/" + f for f in files}}))
+PY
+  export VERIF_REPO=$wt VERIF_WORK=/tmp/seedwork_$name VERIF_OUT=/tmp/seedout_$name VERIF_GOFLAGS="-overlay=$ov"
+  mkdir -p $VERIF_WORK $VERIF_OUT
+  cd /verif && ./run.sh $chk $tier > $out/check_$chk.log 2>&1; rc=$?
+  rm -rf $VERIF_WORK $VERIF_OUT $ov
+else
+  git -C /repo apply $out/patch.diff || { echo "SEED $name: patch does not apply to /repo"; exit 2; }
+  cd /verif && ./run.sh $chk $tier > $out/check_$chk.log 2>&1; rc=$?
+  git -C /repo checkout -- .
+fi
 echo "SEED $name: check $chk $tier exit=$rc $(grep -c '^VIOLATION' $out/check_$chk.log) VIOLATION lines; $(tail -1 $out/check_$chk.log | cut -c1-160)"
